@@ -32,9 +32,10 @@ class Clock:
         hit = False
         if self.jumps:
             with ResumedTracing():
-                for j in self.jumps:
+                for j in list(self.jumps):
                     if j == self.i:
                         hit = True
+                        self.jumps.remove(j)  # decided: no further comparison (= solver call) for this variable
         if hit:
             self.t += self.jump
             self.late_at.append(self.i)
